@@ -105,7 +105,9 @@ def checkDepartures (cfg : Cfg) (a : A) (mustDepart : Option Nat) (evs : List Ev
       | .closed v .. => some (p.1, v) | _ => none)
   let a := notices.foldl (fun a (p : Nat × Nat) =>
       a.chk (xs.contains p.2) "C07" s!"CLIENT_CLOSED about {p.2} although it did not leave") a
-  let observers := a.mods.filter (fun m => m.alive && subscribed m cfg.mtClosed && ready a m && !a.failing m.uid)
+  -- an observer that itself leaves in this segment is owed nothing
+  let observers := a.mods.filter (fun m => m.alive && subscribed m cfg.mtClosed && ready a m && !a.failing m.uid &&
+      !xs.contains m.uid)
   xs.foldl (fun a v =>
     observers.foldl (fun a o =>
       if o.uid == v then a
@@ -137,7 +139,11 @@ def checkAcks (cfg : Cfg) (a : A) (u : Nat) (expect : Bool) (evs : List Ev) : A 
           else
             let n := (acks.filter (·.1 == l.uid)).length
             if l.isLogger && l.connected then
-              if a.failing l.uid then a else a.chk (n == 1) "C19" s!"logger {l.uid} got {n} copies of the ACKNOWLEDGE"
+              if a.failing l.uid then a
+              -- a sender whose own connection is broken may be gone before its request is acknowledged: then there is
+              -- no acknowledgement to copy
+              else if a.failing u then a.chk (n ≤ 1) "C19" s!"logger {l.uid} got {n} copies of the ACKNOWLEDGE"
+              else a.chk (n == 1) "C19" s!"logger {l.uid} got {n} copies of the ACKNOWLEDGE"
             else a.chk (n == 0) "C19" s!"module {l.uid} (not a logger) received an ACKNOWLEDGE meant for {u}") a
       a
 
